@@ -28,7 +28,7 @@ Qed.
 
 Lemma body_raises x e : parse_iso_body x = Raise e -> body_exn e.
 Proof.
-  destruct x as [n|n|f|f|s|b|y m d|y m d h mi s us|a|r|]; cbn [parse_iso_body]; try discriminate.
+  destruct x as [n|n|f|f|s|b|y m d|y m d h mi s us|a|r|h mi s us|]; cbn [parse_iso_body]; try discriminate.
   - apply epoch_branch_raises.
   - apply epoch_branch_raises.
   - destruct f as [| |m e']; cbn [floor_of_float bind]; try (intros [= <-]; unfold body_exn; tauto). apply epoch_branch_raises.
@@ -275,11 +275,20 @@ Lemma casts_agree x :
   (forall t, parse_iso x = Ok (Some t) ->
      cast_timestamp x = Ok t /\ cast_date x = Ok (date_of t) /\ cast_time x = Ok (time_of t)) /\
   (parse_iso x = Ok None ->
-     cast_timestamp x = Raise ValueError /\ cast_date x = Raise ValueError /\ cast_time x = Raise ValueError).
+     cast_timestamp x = Raise ValueError /\ cast_date x = Raise ValueError /\
+     (is_time x = false -> cast_time x = Raise ValueError)).
 Proof.
-  unfold cast_timestamp, cast_date, cast_time, dateval_of, timeval_of, timestamp_of.
-  split; [intros t H|intros H]; rewrite H; cbn [bind]; repeat split; reflexivity.
+  unfold cast_timestamp, cast_date, dateval_of, timestamp_of.
+  split; [intros t H|intros H]; rewrite H; cbn [bind]; repeat split; try reflexivity.
+  - destruct x; try (unfold cast_time, timeval_of, timestamp_of; rewrite H; reflexivity). discriminate H.
+  - intros Ht. destruct x; try discriminate Ht; unfold cast_time, timeval_of, timestamp_of; rewrite H; reflexivity.
 Qed.
+
+(* a native time is nothing like a date for parse_iso, DATE and TIMESTAMP; the TIME cast returns it unchanged *)
+Lemma native_time h mi s us :
+  parse_iso (VTime h mi s us) = Ok None /\ cast_time (VTime h mi s us) = Ok (h, mi, s, us) /\
+  cast_timestamp (VTime h mi s us) = Raise ValueError /\ cast_date (VTime h mi s us) = Raise ValueError.
+Proof. repeat split. Qed.
 
 (* ---------- a date or nothing ---------- *)
 Lemma valid_dt_epoch n t : fromtimestamp_utc n = Ok t -> valid_dt t = true.
